@@ -296,6 +296,10 @@ BEFORE_STMTS = {
     "complex-table": ("CREATE TABLE t0 (\n    p MAP<STRING,ARRAY<INT>>,\n    q varchar(3) NOT NULL\n);", 1),
     # an unsupported statement with an unbalanced '<': yields nothing, and must not leave the bracket counter dirty
     "select-lt": ("SELECT p FROM t0 WHERE p < 3;", 0),
+    # earlier text of the script with an odd number of apostrophes (a comment, an escaped quote in a literal): what stands before a
+    # statement does not change how its types are read
+    "comment-with-apostrophe": ("-- the customer's orders", 0),
+    "table-with-escaped-quote": ("CREATE TABLE t0 (p int, q varchar(8) DEFAULT 'it\\'s');", 1),
 }
 AFTER_STMTS = {
     "table": ("CREATE TABLE t9 (\n    u int NOT NULL,\n    v varchar(7),\n    w decimal(4,1) DEFAULT 0\n);", 1),
@@ -644,7 +648,7 @@ def check(ck):
                     case.layout = (si + pos + oi) % 4
                     case.tail = "pk" if (si + oi) % 5 == 0 else None
                     case.after_stmt = [None, "table", None, "complex-table", None, None][(si + pos + oi) % 6]
-                    case.before_stmt = [None, None, "table", None, None, "select-lt", None, None, "complex-table", None, None][(si + 2 * oi + pos) % 11]
+                    case.before_stmt = [None, None, "table", None, "comment-with-apostrophe", "select-lt", None, None, "complex-table", None, "table-with-escaped-quote"][(si + 2 * oi + pos) % 11]
                     prof = dict(PROFILES[comma])
                     if comma == "comma-space":
                         prof["pc"] = " "
